@@ -202,11 +202,54 @@ def _expected(case, obj, typ):
             for k in ("name", "cospar_id"):
                 if kw.get(k) is not None:
                     e[k] = kw[k]
+    # every date of a message is expressed in the TIME_SYSTEM it declares: the label of the state (OPM), of the
+    # first point (OEM segment), of the first measure (TDM segment); the instants are those of the object
+    if typ == "opm":
+        for m in want["mans"]:
+            m["epoch"] = dict(m["epoch"], scale=want["epoch"]["scale"])
+    elif typ == "oem":
+        for e in want["ephems"]:
+            for pt in e["points"]:
+                pt["epoch"] = dict(pt["epoch"], scale=e["points"][0]["epoch"]["scale"])
+    elif typ == "tdm":
+        for g in want["groups"]:
+            for m in g["measures"]:
+                m["epoch"] = dict(m["epoch"], scale=g["measures"][0]["epoch"]["scale"])
     return want
 
 
-def _tol(typ, *fmts):
-    return E.Tol(coord=max(E.COORD_RES.get((typ, f), 1e-3) for f in fmts))
+def _mixed(spec):
+    """does the object carry dates with more than one time-scale label"""
+    if spec["type"] == "opm":
+        return any(m.get("label") for m in spec["mans"])
+    if spec["type"] == "oem":
+        return any(lab for e in spec["ephems"] for lab in e.get("labels") or ())
+    if spec["type"] == "tdm":
+        return any(m.get("label") for m in spec["measures"])
+    return False
+
+
+def _clone(obj, how):
+    """the object as it is after going through a copy / a pickle (what a caller may well hand to dumps)"""
+    import copy
+    import pickle
+
+    if how == "pickle":
+        return pickle.loads(pickle.dumps(obj))
+    if how == "deepcopy":
+        return copy.deepcopy(obj)
+    if how == "copy()":
+        if isinstance(obj, (list, tuple)):
+            return type(obj)(x.copy() for x in obj)
+        return obj.copy() if hasattr(obj, "copy") and not isinstance(obj, list) else copy.copy(obj)
+    return obj
+
+
+def _tol(typ, *fmts, mixed=False):
+    # a date that had to be converted to the declared time system went through Date.change_scale and Date.datetime,
+    # i.e. five more roundings to the microsecond (offsets such as UT1-UTC or TDB-TT are not whole microseconds):
+    # 2.5 us at worst
+    return E.Tol(coord=max(E.COORD_RES.get((typ, f), 1e-3) for f in fmts), epoch=3e-6 if mixed else 1e-6)
 
 
 def _kind(kind, typ, fmt):
@@ -241,7 +284,7 @@ def collect(case):
     reported = {}
     # ---- phase 1: dump (input untouched), load, compare with the original - once per encoding
     for fmt in FMTS:
-        obj = G.build(spec)
+        obj = _clone(G.build(spec), case.get("clone"))
         snap0 = E.snapshot(obj, typ)
         w = _expected(case, obj, typ)
         if E.snapshot_diff(snap0, E.snapshot(obj, typ)):
@@ -272,7 +315,7 @@ def collect(case):
         except TypeError as exc:
             add("decoded-type", f"loads(dumps(x, {fmt})): {exc}", fmt=fmt)
             continue
-        tol = _tol(typ, fmt)
+        tol = _tol(typ, fmt, mixed=_mixed(spec))
         fields = E.diff(w, got, typ, tol)
         if not fields:
             worst[0] = max(worst[0], tol.worst)
@@ -348,7 +391,12 @@ class _Double:
 def classes(case):
     spec = case["obj"]
     typ = spec["type"]
-    c = [f"via:{case.get('via', 'arg')}"]
+    c = [f"via:{case.get('via', 'arg')}", f"clone:{case.get('clone')}", f"eop:{'real' if G.REAL_EOP else 'none'}"]
+    if _mixed(spec):
+        c.append("mixed-time-scale-labels")
+    for ep in [spec.get("epoch")] + [e.get("epoch") for e in spec.get("ephems", ())]:
+        if ep and ep.get("kind", "uniform") not in ("uniform", "second"):
+            c.append("date:" + ep["kind"])
     nt = False
     if typ in ("opm", "omm"):
         if spec.get("cov"):
@@ -368,7 +416,13 @@ def classes(case):
             nt = True
     elif typ == "oem":
         c.append(f"ephems:{len(spec['ephems'])}")
+        if spec.get("container") == "tuple" and spec.get("as_list"):
+            c.append("tuple-of-ephems")
         for e in spec["ephems"]:
+            if e.get("order_in") and e["order_in"] != sorted(e["order_in"]):
+                c.append("points-given-unsorted")
+            if e["frame"] in G.JPL_FRAMES:
+                c.append("oem-other-centre")
             if len(e["steps_us"]) == 1:
                 c.append("single-point")
             if len(e["covs"]) == 1:
@@ -413,14 +467,27 @@ def case_of(draw, objects, facet):
     if obj["type"] in ("opm", "oem", "omm") and draw(st.sampled_from(range(6))) == 0:
         kw = dict(name=draw(G.opt(G.text(10), 2)), cospar_id=draw(G.opt(G.cospar, 2)),
                   originator=draw(G.opt(G.text(10), 2)))
-    return dict(facet=facet, obj=obj, via=draw(st.sampled_from(["arg", "arg", "arg", "config"])), kw=kw)
+    return dict(facet=facet, obj=obj, via=draw(st.sampled_from(["arg", "arg", "arg", "config"])), kw=kw,
+                clone=draw(st.sampled_from([None, None, None, "copy()", "deepcopy", "pickle"])))
+
+
+def _real(shard):
+    """every third shard runs with the real Earth-orientation tables (dates inside them, leap-second midnights)"""
+    return shard % 3 == 2
 
 
 def _setup(shard):
-    env.eop("missing-pass")
+    G.REAL_EOP = _real(shard)
+    env.eop("real" if G.REAL_EOP else "missing-pass")
+    if G.REAL_EOP:
+        # every writer stamps CREATION_DATE = now, which lies beyond the end of the tables
+        from beyond.config import config
+
+        config["eop"]["missing_policy"] = "pass"
 
 
 def _setup_jpl(shard):
+    G.REAL_EOP = False
     env.eop("missing-pass")
     env.jpl()
     from beyond.env import jpl
@@ -687,8 +754,9 @@ FACETS = [
     Facet("opm", lambda s, t: case_of(G.opm_spec(), "opm"), check, setup=_setup,
           rule="object has a covariance, a maneuver, a user field or a non-UTC scale",
           quick=(10, 180), thorough=(16, 2000)),
-    Facet("opm_jpl", lambda s, t: case_of(G.opm_spec(jpl=True), "opm_jpl"), check, setup=_setup_jpl,
-          rule="as opm; state in a body-centred frame created from the DE403 file",
+    Facet("opm_jpl", lambda s, t: case_of(st.one_of(G.opm_spec(jpl=True), G.opm_spec(jpl=True), G.oem_spec(jpl=True)),
+                                          "opm_jpl"), check, setup=_setup_jpl,
+          rule="as opm / oem; states in a body-centred frame created from the DE403 file",
           quick=(1, 150), thorough=(4, 1000)),
     Facet("oem", lambda s, t: case_of(G.oem_spec(), "oem"), check, setup=_setup,
           rule="every case (1-2 ephemerides, 1-12 points, 0..N covariances)",
